@@ -206,6 +206,12 @@ def analyse():
                                 if isinstance(m, ast.Name) and isinstance(m.ctx, ast.Store) and m.id not in info.taint:
                                     info.taint[m.id] = rd
                                     changed = True
+            in_warn = set()
+            for n in body_nodes:
+                if isinstance(n, ast.Call) and isinstance(n.func, ast.Attribute) and n.func.attr in ("warn", "warning", "morphoError"):
+                    for a in list(n.args) + [k.value for k in n.keywords]:
+                        for m in ast.walk(a):
+                            in_warn.add(id(m))
             for n in body_nodes:
                 tgts = []
                 if isinstance(n, ast.Assign):
@@ -248,6 +254,8 @@ def analyse():
                         langs.add((fn, qual, cname, "current"))
                     if cname in ACCESSORS or (cname in FACTORIES and isinstance(f, ast.Name)):
                         kind = lang_arg_kind(n, cname, info)
+                        if kind == "absent" and id(n) in in_warn:
+                            kind = "absent-in-warning-text"
                         langs.add((fn, qual, cname, kind))
 
         def lang_arg_kind(call, cname, info):
@@ -276,6 +284,9 @@ def analyse():
         def own_nodes(st):
             """all nodes of a statement, not descending into nested function/class definitions"""
             out = []
+            if isinstance(st, (ast.FunctionDef, ast.AsyncFunctionDef, ast.ClassDef)):
+                nested.append(st)
+                return out
             stack = [st]
             while stack:
                 x = stack.pop()
